@@ -185,7 +185,13 @@ def shard_main(args):
                     # confirm outside Hypothesis, on a fresh run of the (shrunk) case
                     try:
                         run_one(check, last["case"], Stats(), open_keys)
-                        result["harness_error"] = "failure did not reproduce on direct re-run (flaky): " + str(last["v"])[:500]
+                        if last["v"].extra.get("nondeterministic"):
+                            # an observation made with real, free-running threads: the observed history itself is the
+                            # evidence (it is part of the violation's detail); it cannot be forced to repeat
+                            last["v"].detail += " [observed once with free-running threads; not reproducible on demand]"
+                            result["failure"] = _failure(check, last["case"], last["v"])
+                        else:
+                            result["harness_error"] = "failure did not reproduce on direct re-run (flaky): " + str(last["v"])[:500]
                     except Violation as v2:
                         result["failure"] = _failure(check, last["case"], v2)
                 else:
